@@ -1,1 +1,728 @@
-fn main() {}
+//! implrun: runs scripts (see coq/theories/Script.v for the operation language) against the real
+//! ureq-proto crate and prints one observation line per operation, in the same textual form as the
+//! extracted Coq model does (modelrun).
+//!
+//! Input:   S <id> / one operation per line / E
+//! Tokens:  #<decimal>  number;  x<hex>  byte string;  anything else  word
+//! Output:  S <id> / one observation line per operation / E
+//!
+//! Every call into the crate is wrapped in catch_unwind; a panic prints `panic` and ends the script
+//! (the remaining operations are not executed).
+
+use std::io::{self, BufRead, Write};
+use std::panic::{catch_unwind, AssertUnwindSafe};
+
+use ureq_proto::client::call::state::{WithBody, WithoutBody};
+use ureq_proto::client::call::Call;
+use ureq_proto::client::flow::state::*;
+use ureq_proto::client::flow::*;
+use ureq_proto::http::{HeaderName, HeaderValue, Method, Request, Response, Version};
+use ureq_proto::parser::*;
+use ureq_proto::{BodyMode, Error};
+
+enum Obj {
+    None,
+    Prepare(Flow<(), Prepare>),
+    SendRequest(Flow<(), SendRequest>),
+    Await100(Flow<(), Await100>),
+    SendBody(Flow<(), SendBody>),
+    RecvResponse(Flow<(), RecvResponse>),
+    RecvBody(Flow<(), RecvBody>),
+    Redirect(Flow<(), Redirect>),
+    Cleanup(Flow<(), Cleanup>),
+    CallWithout(Call<WithoutBody, ()>),
+    CallWith(Call<WithBody, ()>),
+}
+
+struct St {
+    obj: Obj,
+    next: Option<Flow<(), Prepare>>,
+    stream: Vec<u8>,
+    arrived: usize,
+    consumed: usize,
+    body: Vec<u8>,
+    sent: usize,
+}
+
+#[derive(Clone, Debug)]
+enum Tok {
+    W(String),
+    N(u128),
+    H(Vec<u8>),
+}
+
+fn hexv(c: u8) -> Option<u8> {
+    match c {
+        b'0'..=b'9' => Some(c - b'0'),
+        b'a'..=b'f' => Some(c - b'a' + 10),
+        b'A'..=b'F' => Some(c - b'A' + 10),
+        _ => None,
+    }
+}
+
+fn parse_tok(s: &str) -> Tok {
+    let b = s.as_bytes();
+    if b[0] == b'#' {
+        if let Ok(n) = s[1..].parse::<u128>() {
+            return Tok::N(n);
+        }
+    }
+    if b[0] == b'x' && b.len() % 2 == 1 && b[1..].iter().all(|c| hexv(*c).is_some()) {
+        let mut v = Vec::with_capacity(b.len() / 2);
+        let mut i = 1;
+        while i < b.len() {
+            v.push(hexv(b[i]).unwrap() * 16 + hexv(b[i + 1]).unwrap());
+            i += 2;
+        }
+        return Tok::H(v);
+    }
+    Tok::W(s.to_string())
+}
+
+fn hex(b: &[u8]) -> String {
+    const D: &[u8] = b"0123456789abcdef";
+    let mut s = String::with_capacity(b.len() * 2 + 1);
+    s.push('x');
+    for x in b {
+        s.push(D[(x >> 4) as usize] as char);
+        s.push(D[(x & 15) as usize] as char);
+    }
+    s
+}
+
+fn err_name(e: &Error) -> String {
+    let s = format!("{:?}", e);
+    let name = s.split('(').next().unwrap().to_string();
+    format!("err {}", name)
+}
+
+fn clamp(n: u128) -> usize {
+    // capacities / amounts beyond usize are clamped (scripts never depend on the difference)
+    if n > usize::MAX as u128 {
+        usize::MAX
+    } else {
+        n as usize
+    }
+}
+
+const MAX_BUF: usize = 1 << 22;
+
+fn outbuf(cap: usize) -> Vec<u8> {
+    vec![0u8; cap.min(MAX_BUF)]
+}
+
+fn build_request(args: &[Tok]) -> Result<Request<()>, String> {
+    if args.len() < 5 || (args.len() - 5) % 2 != 0 {
+        return Err("badop".into());
+    }
+    let (m, v, scheme, auth, pq) = match (&args[0], &args[1], &args[2], &args[3], &args[4]) {
+        (Tok::W(m), Tok::W(v), Tok::H(s), Tok::H(a), Tok::H(p)) => (m, v, s, a, p),
+        _ => return Err("badop".into()),
+    };
+    let method = Method::from_bytes(m.as_bytes()).map_err(|_| "badreq method".to_string())?;
+    let version = match v.as_str() {
+        "0.9" => Version::HTTP_09,
+        "1.0" => Version::HTTP_10,
+        "1.1" => Version::HTTP_11,
+        "2" => Version::HTTP_2,
+        "3" => Version::HTTP_3,
+        _ => return Err("badop".into()),
+    };
+    let mut uri = Vec::new();
+    uri.extend_from_slice(scheme);
+    uri.extend_from_slice(b"://");
+    uri.extend_from_slice(auth);
+    uri.extend_from_slice(pq);
+    let mut b = Request::builder().method(method).version(version).uri(&uri[..]);
+    let mut given: Vec<(Vec<u8>, Vec<u8>)> = vec![];
+    let mut i = 5;
+    while i < args.len() {
+        match (&args[i], &args[i + 1]) {
+            (Tok::H(k), Tok::H(v)) => {
+                let name = HeaderName::from_bytes(k).map_err(|_| "badreq name".to_string())?;
+                let value = HeaderValue::from_bytes(v).map_err(|_| "badreq value".to_string())?;
+                b = b.header(name, value);
+                given.push((k.clone(), v.clone()));
+            }
+            _ => return Err("badop".into()),
+        }
+        i += 2;
+    }
+    let req = b.body(()).map_err(|e| format!("badreq {}", e.to_string().replace(' ', "_")))?;
+    // The model takes the URI components and the header order as given: check that the http crate
+    // sees the same thing.
+    let u = req.uri();
+    let s_ok = u.scheme_str().map(|s| s.as_bytes().eq_ignore_ascii_case(scheme)).unwrap_or(false);
+    let a_ok = u.authority().map(|a| a.as_str().as_bytes() == &auth[..]).unwrap_or(false);
+    let p_real = u.path_and_query().map(|p| p.as_str()).unwrap_or("");
+    let p_ok = p_real.as_bytes() == &pq[..] || (pq.is_empty() && p_real == "/");
+    if !(s_ok && a_ok && p_ok) {
+        return Err("badreq uri-components".into());
+    }
+    let real: Vec<(Vec<u8>, Vec<u8>)> = req
+        .headers()
+        .iter()
+        .map(|(k, v)| (k.as_str().as_bytes().to_vec(), v.as_bytes().to_vec()))
+        .collect();
+    if real != given {
+        return Err("badreq header-order".into());
+    }
+    Ok(req)
+}
+
+fn obs_headers<'a, I: Iterator<Item = (&'a HeaderName, &'a HeaderValue)>>(it: I) -> String {
+    let v: Vec<_> = it.collect();
+    let mut s = format!("#{}", v.len());
+    for (k, val) in v {
+        s.push(' ');
+        s.push_str(&hex(k.as_str().as_bytes()));
+        s.push(' ');
+        s.push_str(&hex(val.as_bytes()));
+    }
+    s
+}
+
+fn ver_num(v: Version) -> u8 {
+    if v == Version::HTTP_10 {
+        0
+    } else if v == Version::HTTP_11 {
+        1
+    } else {
+        9
+    }
+}
+
+fn obs_response(r: &Response<()>) -> String {
+    format!("#{} #{} {}", ver_num(r.version()), r.status().as_u16(), obs_headers(r.headers().iter()))
+}
+
+fn version_name(v: Version) -> &'static str {
+    if v == Version::HTTP_09 {
+        "HTTP/0.9"
+    } else if v == Version::HTTP_10 {
+        "HTTP/1.0"
+    } else if v == Version::HTTP_11 {
+        "HTTP/1.1"
+    } else if v == Version::HTTP_2 {
+        "HTTP/2.0"
+    } else {
+        "HTTP/3.0"
+    }
+}
+
+fn b(v: bool) -> String {
+    (if v { "true" } else { "false" }).to_string()
+}
+
+fn window(st: &St) -> Vec<u8> {
+    let from = st.consumed.min(st.stream.len());
+    let to = st.arrived.min(st.stream.len()).max(from);
+    st.stream[from..to].to_vec()
+}
+
+fn do_write_body(st: &mut St, input: &[u8], cap: usize, track: bool) -> String {
+    let mut out = outbuf(cap);
+    let r = match &mut st.obj {
+        Obj::SendBody(f) => f.write(input, &mut out),
+        Obj::CallWith(c) => c.write(input, &mut out),
+        _ => return "np".into(),
+    };
+    match r {
+        Ok((i, o)) => {
+            if track {
+                st.sent += i;
+            }
+            format!("ok #{} #{} {}", i, o, hex(&out[..o]))
+        }
+        Err(e) => err_name(&e),
+    }
+}
+
+fn do_try100(st: &mut St, win: &[u8], track: bool) -> String {
+    match &mut st.obj {
+        Obj::Await100(f) => match f.try_read_100(win) {
+            Ok(n) => {
+                if track {
+                    st.consumed += n;
+                }
+                format!("ok #{}", n)
+            }
+            Err(e) => err_name(&e),
+        },
+        _ => "np".into(),
+    }
+}
+
+fn do_try_response(st: &mut St, win: &[u8], track: bool) -> String {
+    match &mut st.obj {
+        Obj::RecvResponse(f) => match f.try_response(win) {
+            Ok((n, r)) => {
+                if track {
+                    st.consumed += n;
+                }
+                match r {
+                    None => format!("none #{}", n),
+                    Some(r) => format!("some #{} {}", n, obs_response(&r)),
+                }
+            }
+            Err(e) => err_name(&e),
+        },
+        _ => "np".into(),
+    }
+}
+
+fn do_read(st: &mut St, win: &[u8], cap: usize, track: bool) -> String {
+    match &mut st.obj {
+        Obj::RecvBody(f) => {
+            let mut out = outbuf(cap);
+            match f.read(win, &mut out) {
+                Ok((i, o)) => {
+                    if track {
+                        st.consumed += i;
+                    }
+                    format!("ok #{} #{} {}", i, o, hex(&out[..o]))
+                }
+                Err(e) => err_name(&e),
+            }
+        }
+        _ => "np".into(),
+    }
+}
+
+fn do_proceed(st: &mut St) -> String {
+    let obj = std::mem::replace(&mut st.obj, Obj::None);
+    let (obj, s): (Obj, String) = match obj {
+        Obj::Prepare(f) => (Obj::SendRequest(f.proceed()), "state SendRequest".into()),
+        Obj::SendRequest(f) => {
+            if !f.can_proceed() {
+                // proceed() consumes the flow and returns None: the model "stays".
+                (Obj::SendRequest(f), "stay".into())
+            } else {
+                match f.proceed() {
+                    Ok(Some(SendRequestResult::Await100(v))) => (Obj::Await100(v), "state Await100".into()),
+                    Ok(Some(SendRequestResult::SendBody(v))) => (Obj::SendBody(v), "state SendBody".into()),
+                    Ok(Some(SendRequestResult::RecvResponse(v))) => {
+                        (Obj::RecvResponse(v), "state RecvResponse".into())
+                    }
+                    Ok(None) => (Obj::None, "lost can_proceed-true-but-None".into()),
+                    Err(e) => (Obj::None, err_name(&e)),
+                }
+            }
+        }
+        Obj::Await100(f) => match f.proceed() {
+            Ok(Await100Result::SendBody(v)) => (Obj::SendBody(v), "state SendBody".into()),
+            Ok(Await100Result::RecvResponse(v)) => (Obj::RecvResponse(v), "state RecvResponse".into()),
+            Err(e) => (Obj::None, err_name(&e)),
+        },
+        Obj::SendBody(f) => {
+            if !f.can_proceed() {
+                (Obj::SendBody(f), "stay".into())
+            } else {
+                match f.proceed() {
+                    Some(v) => (Obj::RecvResponse(v), "state RecvResponse".into()),
+                    None => (Obj::None, "lost can_proceed-true-but-None".into()),
+                }
+            }
+        }
+        Obj::RecvResponse(f) => {
+            if !f.can_proceed() {
+                (Obj::RecvResponse(f), "stay".into())
+            } else {
+                match f.proceed() {
+                    Some(RecvResponseResult::RecvBody(v)) => (Obj::RecvBody(v), "state RecvBody".into()),
+                    Some(RecvResponseResult::Redirect(v)) => (Obj::Redirect(v), "state Redirect".into()),
+                    Some(RecvResponseResult::Cleanup(v)) => (Obj::Cleanup(v), "state Cleanup".into()),
+                    None => (Obj::None, "lost can_proceed-true-but-None".into()),
+                }
+            }
+        }
+        Obj::RecvBody(f) => {
+            if !f.can_proceed() {
+                (Obj::RecvBody(f), "stay".into())
+            } else {
+                match f.proceed() {
+                    Some(RecvBodyResult::Redirect(v)) => (Obj::Redirect(v), "state Redirect".into()),
+                    Some(RecvBodyResult::Cleanup(v)) => (Obj::Cleanup(v), "state Cleanup".into()),
+                    None => (Obj::None, "lost can_proceed-true-but-None".into()),
+                }
+            }
+        }
+        Obj::Redirect(f) => (Obj::Cleanup(f.proceed()), "state Cleanup".into()),
+        other => (other, "np".into()),
+    };
+    st.obj = obj;
+    s
+}
+
+/// `proceed` when `can_proceed()` is false consumes the flow in the real API and returns None.
+/// To exercise exactly that (C09: premature advance attempts) without losing the flow for the rest
+/// of the script, `proceed!` calls the real proceed() on a flow that is not ready only through this
+/// helper's caller above, which checks can_proceed() first; the premature call itself is made by
+/// the dedicated operation `premature`, which ends the script's use of the object.
+fn do_premature(st: &mut St) -> String {
+    let obj = std::mem::replace(&mut st.obj, Obj::None);
+    match obj {
+        Obj::SendRequest(f) => match f.proceed() {
+            Ok(None) => "none".into(),
+            Ok(Some(_)) => "some".into(),
+            Err(e) => err_name(&e),
+        },
+        Obj::SendBody(f) => match f.proceed() {
+            None => "none".into(),
+            Some(_) => "some".into(),
+        },
+        Obj::RecvResponse(f) => match f.proceed() {
+            None => "none".into(),
+            Some(_) => "some".into(),
+        },
+        Obj::RecvBody(f) => match f.proceed() {
+            None => "none".into(),
+            Some(_) => "some".into(),
+        },
+        other => {
+            st.obj = other;
+            "np".into()
+        }
+    }
+}
+
+fn step(st: &mut St, toks: &[Tok]) -> String {
+    let name = match &toks[0] {
+        Tok::W(w) => w.as_str(),
+        _ => return "badop".into(),
+    };
+    let args = &toks[1..];
+    match (name, args) {
+        ("new", _) => match build_request(args) {
+            Ok(req) => match Flow::new(req) {
+                Ok(f) => {
+                    st.obj = Obj::Prepare(f);
+                    st.next = None;
+                    st.sent = 0;
+                    "ok".into()
+                }
+                Err(e) => err_name(&e),
+            },
+            Err(s) => s,
+        },
+        ("call_without", _) => match build_request(args) {
+            Ok(req) => match Call::without_body(req) {
+                Ok(c) => {
+                    st.obj = Obj::CallWithout(c);
+                    "ok".into()
+                }
+                Err(e) => err_name(&e),
+            },
+            Err(s) => s,
+        },
+        ("call_with", _) => match build_request(args) {
+            Ok(req) => match Call::with_body(req) {
+                Ok(c) => {
+                    st.obj = Obj::CallWith(c);
+                    "ok".into()
+                }
+                Err(e) => err_name(&e),
+            },
+            Err(s) => s,
+        },
+        ("body", [Tok::H(bd)]) => {
+            st.body = bd.clone();
+            st.sent = 0;
+            "ok".into()
+        }
+        ("stream", [Tok::H(bd)]) => {
+            st.stream = bd.clone();
+            st.arrived = 0;
+            st.consumed = 0;
+            "ok".into()
+        }
+        ("arrive", [Tok::N(k)]) => {
+            st.arrived = st.stream.len().min(st.arrived.saturating_add(clamp(*k)));
+            "ok".into()
+        }
+        ("parse_response", [Tok::N(n), Tok::H(w)]) => parse_response_n(*n as usize, w),
+        ("parse_partial", [Tok::N(n), Tok::H(w)]) => parse_partial_n(*n as usize, w),
+        ("parse_request", [Tok::N(n), Tok::H(w)]) => parse_request_n(*n as usize, w),
+        ("header", [Tok::H(k), Tok::H(v)]) => match &mut st.obj {
+            Obj::Prepare(f) => match f.header(&k[..], &v[..]) {
+                Ok(()) => "ok".into(),
+                Err(e) => err_name(&e),
+            },
+            _ => "np".into(),
+        },
+        ("despite", []) => match &mut st.obj {
+            Obj::Prepare(f) => {
+                f.send_body_despite_method();
+                "ok".into()
+            }
+            _ => "np".into(),
+        },
+        ("proceed", []) => do_proceed(st),
+        ("premature", []) => do_premature(st),
+        ("write_head", [Tok::N(cap)]) => {
+            let mut out = outbuf(clamp(*cap));
+            let r = match &mut st.obj {
+                Obj::SendRequest(f) => f.write(&mut out),
+                Obj::CallWithout(c) => c.write(&mut out),
+                _ => return "np".into(),
+            };
+            match r {
+                Ok(n) => format!("ok #{} {}", n, hex(&out[..n])),
+                Err(e) => err_name(&e),
+            }
+        }
+        ("write_body", [Tok::H(input), Tok::N(cap)]) => do_write_body(st, input, clamp(*cap), false),
+        ("write_from", [Tok::N(t), Tok::N(cap)]) => {
+            let from = st.sent.min(st.body.len());
+            let to = from.saturating_add(clamp(*t)).min(st.body.len());
+            let input = st.body[from..to].to_vec();
+            do_write_body(st, &input, clamp(*cap), true)
+        }
+        ("direct", [Tok::N(a)]) => match &mut st.obj {
+            Obj::SendBody(f) => match f.consume_direct_write(clamp(*a)) {
+                Ok(()) => "ok".into(),
+                Err(e) => err_name(&e),
+            },
+            _ => "np".into(),
+        },
+        ("try100", []) => {
+            let w = window(st);
+            do_try100(st, &w, true)
+        }
+        ("raw_try100", [Tok::H(w)]) => do_try100(st, w, false),
+        ("try_response", []) => {
+            let w = window(st);
+            do_try_response(st, &w, true)
+        }
+        ("raw_try_response", [Tok::H(w)]) => do_try_response(st, w, false),
+        ("read", [Tok::N(cap)]) => {
+            let w = window(st);
+            do_read(st, &w, clamp(*cap), true)
+        }
+        ("raw_read", [Tok::H(w), Tok::N(cap)]) => do_read(st, w, clamp(*cap), false),
+        ("stop", [Tok::N(v)]) => match &mut st.obj {
+            Obj::RecvBody(f) => {
+                f.stop_on_chunk_boundary(*v != 0);
+                "ok".into()
+            }
+            _ => "np".into(),
+        },
+        ("as_new_flow", [Tok::W(p)]) => {
+            let policy = match p.as_str() {
+                "never" => RedirectAuthHeaders::Never,
+                "same_host" => RedirectAuthHeaders::SameHost,
+                _ => return "badop".into(),
+            };
+            match &mut st.obj {
+                Obj::Redirect(f) => match f.as_new_flow(policy) {
+                    Ok(Some(n)) => {
+                        st.next = Some(n);
+                        "some".into()
+                    }
+                    Ok(None) => "none".into(),
+                    Err(e) => err_name(&e),
+                },
+                _ => "np".into(),
+            }
+        }
+        ("follow", []) => match st.next.take() {
+            Some(n) => {
+                st.obj = Obj::Prepare(n);
+                st.sent = 0;
+                "ok".into()
+            }
+            None => "np".into(),
+        },
+        ("q_can_proceed", []) => match &st.obj {
+            Obj::SendRequest(f) => b(f.can_proceed()),
+            Obj::SendBody(f) => b(f.can_proceed()),
+            Obj::RecvResponse(f) => b(f.can_proceed()),
+            Obj::RecvBody(f) => b(f.can_proceed()),
+            _ => "np".into(),
+        },
+        ("q_keep_await", []) => match &st.obj {
+            Obj::Await100(f) => b(f.can_keep_await_100()),
+            _ => "np".into(),
+        },
+        ("q_is_chunked", []) => match &mut st.obj {
+            Obj::SendBody(f) => b(f.is_chunked()),
+            _ => "np".into(),
+        },
+        ("q_max_input", [Tok::N(n)]) => match &mut st.obj {
+            Obj::SendBody(f) => format!("#{}", f.calculate_max_input(clamp(*n))),
+            _ => "np".into(),
+        },
+        ("q_boundary", []) => match &st.obj {
+            Obj::RecvBody(f) => b(f.is_on_chunk_boundary()),
+            _ => "np".into(),
+        },
+        ("q_body_mode", []) => match &st.obj {
+            Obj::RecvBody(f) => match f.body_mode() {
+                BodyMode::NoBody => "nobody".into(),
+                BodyMode::LengthDelimited(n) => format!("length #{}", n),
+                BodyMode::Chunked => "chunked".into(),
+                BodyMode::CloseDelimited => "close".into(),
+            },
+            _ => "np".into(),
+        },
+        ("q_must_close", []) => match &st.obj {
+            Obj::Redirect(f) => b(f.must_close_connection()),
+            Obj::Cleanup(f) => b(f.must_close_connection()),
+            _ => "np".into(),
+        },
+        ("q_close_reason", []) => {
+            let r = match &st.obj {
+                Obj::Redirect(f) => f.close_reason(),
+                Obj::Cleanup(f) => f.close_reason(),
+                _ => return "np".into(),
+            };
+            match r {
+                Some(s) => format!("some {}", hex(s.as_bytes())),
+                None => "none".into(),
+            }
+        }
+        ("q_status", []) => match &st.obj {
+            Obj::Redirect(f) => format!("#{}", f.status().as_u16()),
+            _ => "np".into(),
+        },
+        ("q_method", []) => match &st.obj {
+            Obj::Prepare(f) => f.method().as_str().to_string(),
+            Obj::SendRequest(f) => f.method().as_str().to_string(),
+            _ => "np".into(),
+        },
+        ("q_uri", []) => {
+            let u = match &st.obj {
+                Obj::Prepare(f) => f.uri(),
+                Obj::SendRequest(f) => f.uri(),
+                _ => return "np".into(),
+            };
+            format!(
+                "{} {} {}",
+                hex(u.scheme_str().unwrap_or("").as_bytes()),
+                hex(u.authority().map(|a| a.as_str()).unwrap_or("").as_bytes()),
+                hex(u.path_and_query().map(|p| p.as_str()).unwrap_or("").as_bytes())
+            )
+        }
+        ("q_version", []) => match &st.obj {
+            Obj::Prepare(f) => version_name(f.version()).to_string(),
+            Obj::SendRequest(f) => version_name(f.version()).to_string(),
+            _ => "np".into(),
+        },
+        ("q_headers", []) => match &st.obj {
+            Obj::Prepare(f) => obs_headers(f.headers().iter()),
+            _ => "np".into(),
+        },
+        ("q_is_finished", []) => match &st.obj {
+            Obj::CallWithout(c) => b(c.is_finished()),
+            Obj::CallWith(c) => b(c.is_finished()),
+            _ => "np".into(),
+        },
+        _ => "badop".into(),
+    }
+}
+
+macro_rules! with_n {
+    ($n:expr, $f:ident, $w:expr) => {
+        match $n {
+            0 => $f::<0>($w),
+            1 => $f::<1>($w),
+            2 => $f::<2>($w),
+            3 => $f::<3>($w),
+            4 => $f::<4>($w),
+            5 => $f::<5>($w),
+            6 => $f::<6>($w),
+            8 => $f::<8>($w),
+            16 => $f::<16>($w),
+            32 => $f::<32>($w),
+            64 => $f::<64>($w),
+            128 => $f::<128>($w),
+            129 => $f::<129>($w),
+            130 => $f::<130>($w),
+            256 => $f::<256>($w),
+            _ => return "badop unsupported-N".into(),
+        }
+    };
+}
+
+fn parse_response_n(n: usize, w: &[u8]) -> String {
+    match with_n!(n, try_parse_response, w) {
+        Ok(None) => "none".into(),
+        Ok(Some((used, r))) => format!("some #{} {}", used, obs_response(&r)),
+        Err(e) => err_name(&e),
+    }
+}
+
+fn parse_partial_n(n: usize, w: &[u8]) -> String {
+    match with_n!(n, try_parse_partial_response, w) {
+        Ok(None) => "none".into(),
+        Ok(Some(r)) => format!("some {}", obs_response(&r)),
+        Err(e) => err_name(&e),
+    }
+}
+
+fn parse_request_n(n: usize, w: &[u8]) -> String {
+    match with_n!(n, try_parse_request, w) {
+        Ok(None) => "none".into(),
+        Ok(Some((used, r))) => format!(
+            "some #{} {} #{} {}",
+            used,
+            hex(r.method().as_str().as_bytes()),
+            ver_num(r.version()),
+            obs_headers(r.headers().iter())
+        ),
+        Err(e) => err_name(&e),
+    }
+}
+
+fn main() {
+    std::panic::set_hook(Box::new(|_| {}));
+    let stdin = io::stdin();
+    let stdout = io::stdout();
+    let mut out = io::BufWriter::new(stdout.lock());
+    let mut st = St {
+        obj: Obj::None,
+        next: None,
+        stream: vec![],
+        arrived: 0,
+        consumed: 0,
+        body: vec![],
+        sent: 0,
+    };
+    let mut dead = false;
+    for line in stdin.lock().lines() {
+        let line = line.unwrap();
+        if line.starts_with("S ") {
+            st = St {
+                obj: Obj::None,
+                next: None,
+                stream: vec![],
+                arrived: 0,
+                consumed: 0,
+                body: vec![],
+                sent: 0,
+            };
+            dead = false;
+            writeln!(out, "{}", line).unwrap();
+            // make the script id visible early: a hang is attributable to the last id printed
+            out.flush().unwrap();
+            continue;
+        }
+        if line == "E" {
+            writeln!(out, "E").unwrap();
+            continue;
+        }
+        if line.is_empty() || dead {
+            continue;
+        }
+        let toks: Vec<Tok> = line.split(' ').filter(|s| !s.is_empty()).map(parse_tok).collect();
+        let r = catch_unwind(AssertUnwindSafe(|| step(&mut st, &toks)));
+        match r {
+            Ok(s) => writeln!(out, "{}", s).unwrap(),
+            Err(_) => {
+                writeln!(out, "panic").unwrap();
+                dead = true;
+            }
+        }
+    }
+    out.flush().unwrap();
+}
